@@ -158,6 +158,37 @@ CHECKS["C18"] = dict(
     technique="TLA+ spec of the admissible result (AtomGen over AtomGraph) checked by TLC on recorded generated molecules (trace validation of final states)",
 )
 
+_LAW_NOTE = ("Weaker than the structural properties, and said so: the real-valued content (densities, CDFs, quantiles) enters as integer tables (scaled 1e8) computed by an independent numeric "
+             "oracle (harness/refcdf.py, standard library math only); TLC checks the relations the statement demands between the recorded numbers and those tables, not the analysis. "
+             "Trusted: refcdf.py, TLC, the scripted numpy Generator.")
+CHECKS["C09"] = dict(
+    category="model_checking",
+    text="Decided deterministically at the generator interface, not statistically: for every family x parameter set x molecule shape (one block, two blocks of the same family with "
+         "different parameters, two blocks of different families, end-group start) the scripted generator answers the distribution's draw at each quantile of a grid; the block must "
+         "stop in the bin F(M_{n-1}) <= u < F(M_n) of the DECLARED law with the documented parameter roles (Law.tla, record kind 'block'; CDF table at the cumulative unit masses). "
+         "Also: exactly one draw per stochastic object per generation, each block governed by its own draw, Poisson requested with the declared mean.",
+    design_ref="DESIGN.md 4/C09", note=_LAW_NOTE,
+    technique="TLA+ law relations (Law.tla) checked by TLC on records of a scripted quantile sweep through the implementation",
+)
+CHECKS["C11"] = dict(
+    category="model_checking",
+    text="Law.tla states what makes recorded numbers ONE coherent law (mass function non-negative and equal to the declared law, total mass 1, interval probability = difference of the "
+         "law's own cumulative function, a draw at quantile u returns x with F(x-) <= u <= F(x) inside the support, documented mean) and TLC evaluates it on every record; records come "
+         "from parameter grids of all six families (several objects of a family alive together), scripted quantile grids for the draws, random intervals; text form and rejection of "
+         "unknown names are checked directly.",
+    design_ref="DESIGN.md 4/C11", note=_LAW_NOTE,
+    technique="TLA+ law relations (Law.tla) checked by TLC on recorded values of prob_mw / interval / draw_mw",
+)
+CHECKS["C19"] = dict(
+    category="model_checking",
+    text="Closed form P = start probability x product over blocks of F(M_n) - F(M_{n-1}) (reference CDF at the cumulative unit masses). get_ensemble_prob is queried for every chain "
+         "length with non-negligible mass for one to three blocks, prefix / [H] start / two competing start groups, all six families (two parameter sets per family on the same unit), "
+         "random atom orders of the query, and molecules outside the ensemble; single-block relations (record kinds 'chain', 'total', 'zero') are evaluated by TLC, products of several "
+         "blocks in Python. Three defects of the unchanged code are known findings with designated probe cases.",
+    design_ref="DESIGN.md 4/C19", note=_LAW_NOTE,
+    technique="TLA+ law relations (Law.tla) checked by TLC on recorded ensemble probabilities; closed form from an independent CDF oracle",
+)
+
 PENDING_REASON = "check not built yet in this round (design in DESIGN.md); no claim is made"
 
 
